@@ -15,10 +15,15 @@ def _post(ctx, scns, results):
     for s_ in scns:
         if any(st.get("outcome") == "rejected" for st in s_["steps"]):
             byk.setdefault(json.dumps(s_["def"]["k"]), []).append(s_)
-    pick = []
+    # filtering DISABLED: behaviours whose accepted updates have a normalised innovation far above the reading count (they would
+    # be discarded under any threshold, so a guard that is taken although filtering is off shows)
+    from build import fl
+    off = [s_ for s_ in scns if s_["def"]["k"][1] == 0 and
+           any(st["act"] == "Update" and st.get("nis") and st["nis"][1] > 0 and fl(st["nis"]) > 4.0 * max(1, len(st["z"])) for st in s_["steps"])]
+    pick = off[: (3 if ctx.quick else 30)]
     for r in range(3):
         for k_, lst in sorted(byk.items()):
-            if r < len(lst) and len(pick) < n:
+            if r < len(lst) and len(pick) < n + 3:
                 pick.append(lst[r])
     pick += [s_ for s_ in scns if s_ not in pick][: max(0, n - len(pick))]
     rc = cppcheck.replay_cpp(ctx, pick, cse_settings=(True,), kind="ekf")
